@@ -1,5 +1,6 @@
 import Tup.Lemmas.PhChoreo
 import Tup.Lemmas.PhModel
+import Tup.Lemmas.PhEmitted
 /-!
   C07 — printed Unicode placeholders decode to exactly the requested image cells.
 
@@ -9,8 +10,9 @@ import Tup.Lemmas.PhModel
 
   Layer (A) — per line, on the real terminal cells — is proved here for every ID, placement ID,
   mode (all 160), start column < 297, any width, row < 297, any caller background formatting,
-  any terminal state with room for the line.  Layers (B) `parse (serialize ts) = ts` and (C) the
-  multi-line choreography are partial: see the notes at the end.
+  any terminal state with room for the line.  Layer (B) `parse (serialize ts) = ts` is proved for
+  the emitted token class.  Layer (C), the multi-line choreography, is proved for the
+  absolute-position style; the cursor-relative styles are left (note at the end).
 -/
 namespace Tup.C07
 open Tup Tup.Spec Tup.Ph
@@ -205,6 +207,35 @@ theorem choreography_abs (t : Term) (p : Placeholder) (m : Mode) (fmt : FmtT) (p
     have := absResult_cursor p m fmt px n p.startRow py t
     exact ⟨this.1, by rw [this.2.1]; omega, this.2.2⟩
 
+/-- **(B) `parse_serialize`**: on the class of tokens the library emits on the display stream (printable/combining
+    characters ≥ U+0020, LF, CR, `ESC D`, CSI sequences with decimal parameters and a final byte `@…~`), the terminal-side
+    tokenizer reads back exactly what was serialised (decimal round trip `decToNat? (natToDec n) = some n`, UTF-8 round
+    trip for 1–4 byte forms). -/
+theorem parse_serialize (ts : List Tok) (h : ∀ t ∈ ts, EscL.Emitted t) : parse (serialize ts) = ts :=
+  EscL.parse_serialize ts h
+
+/-- (B) applied: the bytes of a complete output in ANY style parse back to the model's tokens … -/
+theorem stream_bytes_parse (st : Style) (p : Placeholder) (m : Mode) (fmt : FmtT) (hsc : p.startCol < 297) (hfmt : BgOnly fmt) :
+    parse (serialize (streamToks st (p.endCol - p.startCol) (p.lineToksAll m fmt))) =
+      streamToks st (p.endCol - p.startCol) (p.lineToksAll m fmt) :=
+  EscL.parse_serialize _ (streamToks_emitted st p m fmt hsc hfmt)
+
+/-- … and feeding the BYTES of a model line (`lineBytes`, what K compares with `to_lines`) to the terminal is feeding its
+    tokens, so `line_decodes`, `line_frame`, `blank_rows`, `line_decodes_row` hold for the bytes. -/
+theorem line_bytes_feed (t : Term) (p : Placeholder) (m : Mode) (fmt : FmtT) (row : Nat) (hsc : p.startCol < 297) (hfmt : BgOnly fmt) :
+    t.feedBytes (lineBytes p m fmt.toFmt false row) = t.feedAll (lineToks p m fmt row) := by
+  unfold Term.feedBytes
+  rw [lineBytes_eq_serialize, EscL.parse_serialize _ (lineToks_emitted p m fmt row hsc hfmt)]
+
+/-- **(C) single-row case, every cursor-relative style**: for a one-row placeholder `to_stream_at_cursor` (with or without
+    save/restore, with or without line feeds) writes exactly the line — no cursor movement at all — so `line_decodes`,
+    `line_frame` and `line_decodes_row` are the complete choreography: cells at `(y0, x0 + j)`, cursor at `(x0 + C, y0)`,
+    nothing else touched, for both values of every terminal parameter. -/
+theorem choreography_single_row (save lf : Bool) (p : Placeholder) (m : Mode) (fmt : FmtT) (h : p.endRow = p.startRow + 1) :
+    streamToks (.atCursor save lf) (p.endCol - p.startCol) (p.lineToksAll m fmt) = lineToks p m fmt p.startRow := by
+  have : p.endRow - p.startRow = 1 := by omega
+  simp [Placeholder.lineToksAll, this, streamToks, enumFrom, curBefore, curAfter]
+
 /-- the hypotheses of `line_decodes` are satisfiable: ID 0x01020304 (needs the 3rd diacritic and 24-bit colour),
     placement 5, columns 1..3 of row 0, default mode, on a 10-column terminal -/
 example : (⟨0x01020304, 5, 1, 0, 4, 2⟩ : Placeholder).valid = true ∧ (displayMode false).valid = true ∧
@@ -212,19 +243,14 @@ example : (⟨0x01020304, 5, 1, 0, 4, 2⟩ : Placeholder).valid = true ∧ (disp
   ⟨by decide, by decide, getFormattingT_bgOnly _, by decide⟩
 
 /-
-  Not proved here (full statements kept; see DESIGN.md C07 and Appendix A.5):
-
-  (B) parse_serialize : ∀ ts, EmittedClass ts → parse (serialize ts) = ts
-      (needs `decToNat? (natToDec n) = some n` and the UTF-8 round trip for the code points used).  The theorems above
-      are about tokens; the byte ↔ token step is covered by the correspondence check, which feeds the REAL bytes
-      through `Spec.parse` into the same terminal.  TODO.
+  Not proved here (full statement kept; see DESIGN.md C07 and Appendix A.5):
 
   (C) choreography : for every style, W, H, (x0, y0), rectangle fitting the width (abs: also the height):
         let t' := feedAll (blank W H at (x0,y0)) (streamToks style …);
         ∀ i < R, ∀ j < C, decode t' (expectedPos style i j) = some ⟨id, pid, startRow+i, startCol+j⟩ ∧ every other cell is blank
       with the hypothesis `cfg.cubFromW` for the relative style touching the right margin.
       Proved above: the absolute-position style (`choreography_abs`, any start state, both values of every terminal
-      parameter).  The per-line statements `line_decodes` + `line_frame` are the induction step for the other styles.
+      parameter) and the single-row case of every cursor-relative style (`choreography_single_row`).  The per-line statements `line_decodes` + `line_frame` are the induction step for the other styles.
       TODO: the at-cursor styles (save/restore, relative, line feeds) with scrolling.
 -/
 
